@@ -1,17 +1,77 @@
 NOTES = ("All checks: ./check <id> --tier quick|thorough; exit 0 held, exit 1 with a VIOLATION line, exit 2 infrastructure "
-         "failure. Genuine defects of the pinned tree were repaired in /repo by 'fix:' commits or recorded in "
-         "known_findings.json (see DESIGN.md section 4).")
+         "failure. Each check (1) builds the Lean project, (2) audits the property's theorems (#print axioms, forbidden "
+         "tokens), (3) runs the correspondence between the Lean model's executable definitions and the real /repo code "
+         "on generated inputs, (4) evaluates an independent property oracle on every case, (5) on a correspondence break "
+         "searches for a concrete failing input. Genuine defects of the pinned tree were repaired in /repo by 'fix:' "
+         "commits or recorded in known_findings.json (DESIGN.md section 4).")
 NOT_YET = {}
 _NOTE = ("Trusted: Lean kernel + propext/Classical.choice/Quot.sound; the hand-written model (tied to the code only by the "
-         "sampled/small-scope-exhaustive correspondence run on every check); the Python harness. ")
+         "sampled / small-scope-exhaustive correspondence run on every check); the Python harness and its oracles. ")
+_T = "Lean 4 proof about an executable model + differential correspondence with the real code + independent oracle"
+
+
+def _c(text, note="", technique=_T):
+    return {"text": text, "note": _NOTE + note, "technique": technique}
+
+
 CLAIMED = {
-    "C17": {
-        "text": "Lean theorems C17_positions (accepted iff one of the documented shapes, with exactly that meaning), C17_total "
-                "(otherwise FormatError), C17_roundtrip / C17_pack_succeeds_iff (write-back and re-parse is the identity; "
-                "only an empty step name cannot be written), C17_case_even / C17_case_desttype (keyword case irrelevant, "
-                "operands verbatim), C17_malformed_cannot_load; for all token lists, no length bound. Tied to "
-                "in_toto.rulelib by exhaustive short token lists, all single mutations of the 7 shapes and random lists.",
-        "note": _NOTE + "ASCII lower-casing in the model vs str.lower() (argument in DESIGN C17).",
-        "technique": "Lean 4 proof (case analysis on list shape) + differential correspondence with unpack_rule/pack_rule_data",
-    },
+    "C01": _c("Theorems C01_accept_requires (acceptance implies non-empty key set, a successful signature check for every supplied "
+              "key, the evaluated payload is the one carried by that metadata, now < expiry), sigcheck_ok_sound (a successful "
+              "check means the scheme accepted a present signature for the key's material over exactly the canonical / PAE bytes "
+              "of the payload), C01_evaluates_signed_content, C01_empty_keys / _missing_signature / _expired, C09_edit_detected; "
+              "for every scheme, world, key set, fuel. Correspondence: real Metadata.load + in_toto_verify under an injected clock "
+              "and TZ vs the model on key-set / expiry / leaf-edit / signature-edit families; op expiry vs dateutil+iso8601.",
+              "Signature scheme abstract (ideal table in the correspondence); non-malleability is a hypothesis of C09_edit_detected."),
+    "C02": _c("Theorems authorise_sound (the three documented authorisation cases), C02_counted_sound (>= threshold distinct main ids, "
+              "each backed by a loaded, authorised, name-bound link that passed the check with the selected key), C02_retained_good, "
+              "C02_ignore_bad_stage (the stage's result is unchanged by removing unsigned / altered / unauthorised / expired / "
+              "other-family links), C02_subkey_only. Correspondence: link directories described per file by (file-name id, signer, "
+              "tamper, format), incl. the full gpg (authorised, file name, signer) grid over masters and signing subkeys.",
+              "gpg cases bounded by the repo's test keyring; files that are not loadable metadata abort verification (DESIGN 4.3)."),
+    "C03": _c("Theorems C03_consuming / genericCond_* (CREATE, DELETE, MODIFY, ALLOW remove exactly the matching artifacts that meet "
+              "the definition), C03_disallow, C03_require, C03_match_only_if / _if / _missing_link, C03_sequence_pass / _fail, "
+              "C03_queue_shrinks, C03_all_items, C03_order_independent(+_perm,_item), hashEq_perm; for an arbitrary glob matcher. "
+              "Correspondence: Lean Glob vs fnmatch exhaustively for short patterns; verify_item_rules on random worlds with REQUIRE probes.",
+              "fnmatch.translate of CPython 3.12 is modelled and exhaustively compared at small scope, not proved."),
+    "C05": _c("Theorems C05_agreeing_group (threshold > 1: >= threshold retained links, all equal to the first on materials and "
+              "products, and the first is what rules, referencing rules and the summary link use), reduce_is_first, "
+              "C05_disagree_rejected (any position), C05_constraint_failure_rejects. Correspondence: thresholds 1-3, 2-4 signers, "
+              "dissenters valid / invalid / unauthorised in every load-order position; summary link observed."),
+    "C06": _c("Theorems C06_sublayout_complete (every retained sublayout passed the same `verify` with exactly the key the parent lists "
+              "for that functionary, directory <dir>/<step>.<kid8>, the step name, no parameters; every link the parent uses stems "
+              "from a retained entry), C06_summary_link (first materials + last products), C06_failure_propagates; for every fuel, "
+              "hence every depth. Correspondence: trees of depth 1-3 with eight kinds of injected sublayout defects."),
+    "C07": _c("Theorems C07_prefix (executed commands = command lines of a prefix of the inspection list, in order, once; all but the "
+              "last exited 0; success iff the whole list ran with status 0), C07_gate (any command only after gate + loading + "
+              "signature thresholds; own commands only after sublayouts, constraints and step rules too), "
+              "C07_unauthenticated_never_runs, C07_failing_inspection_rejects. Correspondence: helper commands logging to an "
+              "append-only file, real time-outs, nine injected earlier-stage failures at root and in sublayouts.",
+              "Kernel scheduling and real process start failures are not modelled; a 30 s sleeper stands for a time-out (limit 1 s)."),
+    "C08": _c("Theorem C08_name_binding (every retained entry whose payload is a link names the step it is presented for), via "
+              "verifyStepLinks_inv. Correspondence: copy / rename of a link between every ordered pair of steps sharing a functionary, "
+              "rules that would / would not notice, both formats."),
+    "C09": _c("Theorems C09_edit_detected, C09_other_key_fails, C09_signature_edit_detected (under non-malleability of the signatures "
+              "present), C09_sign_verify (replace / append), C09_verifies_iff_metablock / _envelope; canon / PAE model compared byte "
+              "for byte with securesystemslib on random values; sign -> dump -> load -> verify through in-toto for rsa / ecdsa / ed25519 / "
+              "gpg master / gpg subkey x both formats x compact / indented, leaf and signature edits, in-toto-sign sequences.",
+              "Injectivity of the canonical encoding for arbitrarily nested values: see DESIGN section 6 (partial)."),
+    "C14": _c("Theorems C14_signature_check_equiv (same signers, distinct key ids, non-gpg key: first-match and any-match checks agree), "
+              "C14_layout_format_irrelevant (verdict, summary link and trace depend on the layout's container only through payload and "
+              "check outcomes), C14_envelope_untouched. Correspondence: every C02 / C05 / C06 / C07 / C08 scenario materialised under "
+              "three format assignments, outcomes compared across assignments and with the model; run / record / sign / "
+              "match-products through library and in-toto-match-products main in both formats.",
+              "Link-level (world) format equivalence is established by correspondence only; duplicate key ids excluded (DESIGN 4.3)."),
+    "C16": _c("Theorems C16_verbatim (value inserted as is, scan resumes in the template), C16_literal, C16_escaped_braces, "
+              "C16_missing_fails, C16_subst_error_rejects, C16_bad_params_fail, C16_after_gate, C16_covers_step / _inspection / _layout, "
+              "C16_caller_unchanged_partial / _identity, and C16_caller_unchanged_refuted (the full 'caller's object unchanged' "
+              "statement is FALSE of the code for traditional metadata: known finding D8, kernel-checked counterexample). "
+              "Correspondence: op format vs str.format; verify with parameters; sequences of 2-4 verifications of one object.",
+              "str.format beyond {name}, {{, }} is outside the modelled subset. D8 is matched against known_findings.json by shape; "
+              "any other alteration or inconsistency is a violation."),
+    "C17": _c("Theorems C17_positions (accepted iff one of the documented shapes, with exactly that meaning), C17_total (otherwise "
+              "FormatError), C17_nonstr_rejected, C17_roundtrip / C17_pack_succeeds_iff, C17_case_even / C17_case_desttype, "
+              "C17_step / _inspection / _layout / _metadata_malformed_rule (cannot be constructed or loaded); no length bound. "
+              "Correspondence: exhaustive short token lists, all single mutations of the shapes, random lists; malformed rule at "
+              "every position of random layouts through Step(), Inspection(), Layout.read, Metadata.load, Envelope.get_payload.",
+              "ASCII lower-casing in the model vs str.lower() (argument in DESIGN C17)."),
 }
